@@ -32,7 +32,7 @@ def run(tier):
     if len(progs) < 1000:
         raise vlib.ToolError("MC_Positions emitted only %d programs" % len(progs))
     # three nesting levels (statement position [ expression position [ wrapper [ construct ] ] ]): one residue class of the product
-    stride = 211 if tier == "quick" else 13
+    stride = 211 if tier == "quick" else 29
     gd = tlc("mc/MC_Positions", workers=4, timeout=1800, xmx="6g", env={"MODE": "deep", "STRIDE": str(stride), "OFFSET": str(rng.randrange(stride))})
     tlc_ok(gd, "MC_Positions(deep)")
     deep = gd.tagged("CASE")
